@@ -6,11 +6,14 @@ import functools
 import fiddle as fdl
 
 from fvlib import sigs
+from fvlib import stubs
 from fvlib.notes import note
 from fvlib.refargs import RefArgs, UNSET
 from fvrun.spec import Cube, Obligation
 
 PROPERTY = 'C01'
+stubs.stub_build_message_formatting()
+stubs.stub_buildable_repr()
 EXPLANATION = (
     'bounded symbolic execution of the real Config construction / edits, cfg[:], ordered_arguments and '
     'fdl.build (signature_binding, transform_to_args_kwargs, call_buildable, MemoizedTraversal) with '
@@ -18,6 +21,7 @@ EXPLANATION = (
     '*args values and the nesting are solver-enumerated, every configured value is an unbounded symbolic '
     'int; the recording callable\'s bound arguments are compared with the direct call')
 ASSUMPTIONS = [
+    'stub: building._format_arg and Buildable.__repr__ return constants (diagnostic text is the subject of C05, not C01)',
     'an unset positional parameter that is followed by a set positional value receives its own default; if it '
     'has none the call cannot be formed and build must raise (DESIGN Appendix A, "forming the call")',
     'catalogue callables return a record of their bound arguments; equality of records is equality of calls',
@@ -244,17 +248,19 @@ def obligations(tier, seed):
   _SMOKE['sig'] = core[0]
   others = [i for i in range(len(sigs.SIGS)) if i not in core]
   if tier == 'quick':
-    plain = core + rng.sample(others, 70)
-    nested = core[:4]
-    t = 150
+    plain = list(range(len(sigs.SIGS)))
+    nested = core[:4] + rng.sample(others, 2)
+    t = 200
   else:
     plain = list(range(len(sigs.SIGS)))
-    nested = core + rng.sample(others, 30)
+    nested = core + rng.sample(others, 50)
     t = 600
   cubes = []
+  gap_free = '(s0 or not s1) and (s1 or not s2) and (s2 or not s3)'
   for s in plain:
-    for how in (0, 1):
-      cubes.append(Cube(f's{s}_h{how}', [], dict(sig=s, how=how, nest=0, npos=0)))
+    cubes.append(Cube(f's{s}_h0', [], dict(sig=s, how=0, nest=0, npos=0), est=200))
+    # constructor path: only gap-free prefixes reach it (other masks fall back to the edit path)
+    cubes.append(Cube(f's{s}_h1', [gap_free], dict(sig=s, how=1, nest=0, npos=0), est=60))
   for s in nested:
     shape = sigs.SIGS[s][1]
     for nest in (1, 2, 3, 4, 5):
@@ -277,7 +283,7 @@ def obligations(tier, seed):
           if not shape.va:
             continue
         pre = ['nva >= 1'] if npos == 6 else []
-        cubes.append(Cube(f's{s}_n{nest}_p{npos}', pre, fix))
+        cubes.append(Cube(f's{s}_n{nest}_p{npos}', pre, fix, est=100))
   return [
       Obligation('c01_build', c01_build, cubes, timeout=t, path_timeout=30, smoke=dict(_SMOKE)),
       Obligation('c01_special', c01_special, [Cube(f'c{c}', [], dict(case=c)) for c in range(14)], timeout=60,
